@@ -41,6 +41,7 @@ type Cfg struct {
 	MapStructKey      bool // struct-like map keys
 	UnionDefaults     bool
 	DistinctThrows    bool // a throws list names each exception type at most once
+	NoZeroThrowsID    bool // no throws entry has id 0 (it would share the id of `success` in the result struct)
 }
 
 // GoSafe is the configuration for programs that are handed to the Go backend:
@@ -480,6 +481,13 @@ func (g *gen) genFields(kind string) []*Field {
 			}
 			if g.cfg.HexIDs && f.ID >= 0 && g.p(1, 8, "hexid") {
 				f.HexID = true
+			}
+		}
+		if kind == "throws" && g.cfg.NoZeroThrowsID && f.ID == 0 {
+			f.Explicit = true
+			f.HexID = false
+			for used[f.ID] || f.ID == 0 {
+				f.ID++
 			}
 		}
 		used[f.ID] = true
